@@ -234,6 +234,23 @@ class C18(Prop):
                 doc['raw'] = dict(doc['raw'], m=doc['raw']['m'] + [['pp' + str(i), Q([S(c) for c in rng.sample(['d', 'e', 'f.txt'], rng.choice([0, 1, 2]))],
                                    tag={'k': 'path', 'f': rng.choice(['parent(1)', 'parent(2)', 'parent', 'file', 'parent(0)'])})] for i in range(rng.choice([1, 2]))])
             out.append({'doc': doc, 'seq': seq, 'style': list(st)})
+        # targeted family: a function node that states its delete mode explicitly below a container that hands the same mode down
+        # (a !merge mapping / list / function node): what the parent implies must still reach the re-parsed node, whose constructor
+        # would otherwise default to delete=True (seeded change S6-C18); a later stage restates the node so that replace-vs-merge shows
+        for i in range(max(3, n // 12)):
+            fkw = rng.choice([{'del': False}, {'del': False}, {'del': True}, {}, {'del': False, 'prio': 1}])
+            fn = M([(a, S(rng.randrange(9))) for a in rng.sample(['a', 'b', 'p'], rng.choice([1, 2]))], tag={'k': rng.choice(['call', 'bind']), 'f': 'rec.f'}, kw=fkw)
+            pkw = rng.choice([{'del': False}, {'del': False}, {'del': True}, {}])
+            r = rng.random()
+            if r < 0.45:
+                parent, path = M([('f', fn), ('z', S(1))], kw=pkw), ['k', 'f']
+            elif r < 0.7:
+                parent, path = Q([fn, S(1)], kw=pkw), ['k', 0]
+            else:
+                parent, path = M([('f', fn)], tag={'k': 'call', 'f': 'rec.g'}, kw=pkw), ['k', 'f']
+            doc = {'raw': M([('k', parent)])}
+            later = M([(a, S(rng.randrange(9))) for a in rng.sample(['a', 'b', 'q'], rng.choice([1, 2]))], tag={'k': 'call', 'f': 'rec.f'})
+            out[(5 * i + 1) % len(out)] = {'doc': doc, 'seq': [{'raw': M([('k', G.nest(path[1:], later) if path[1:] else later)])}] if rng.random() < 0.8 else [], 'style': ['flow', 0, 0]}
         return out
 
     # ------------------------------------------------------------------ implementation
